@@ -155,10 +155,20 @@ fn v1_err(e: &v1::ParseError) -> String {
 
 fn v1_ok(h: &v1::Header<'_>) -> String {
     let o = h.to_owned();
+    // owned copy and plain clone: equal to the original (both directions of `==`), same views
+    let c = h.clone();
     let owned = o == *h
+        && *h == o
+        && c == *h
+        && !(o != *h)
+        && o.header == h.header
+        && o.addresses == h.addresses
         && o.protocol() == h.protocol()
         && o.addresses_str() == h.addresses_str()
-        && o.to_string() == h.to_string();
+        && o.to_string() == h.to_string()
+        && c.to_string() == h.to_string()
+        && c.addresses_str() == h.addresses_str()
+        && o.to_owned() == o;
     format!(
         "ok hdr={} addr={} proto={} astr={} disp={} owned={}",
         hex(h.header.as_bytes()),
@@ -391,6 +401,9 @@ fn tlv_items(mut it: v2::TypeLengthValues<'_>, nbytes: usize) -> String {
             Some(Ok(t)) => {
                 let o = t.to_owned();
                 owned_ok &= o == t
+                    && t == o
+                    && t.clone() == t
+                    && !(o != t)
                     && o.len() == t.len()
                     && o.is_empty() == t.is_empty()
                     && t.len() == t.value.len()
@@ -433,7 +446,19 @@ fn tlv_items(mut it: v2::TypeLengthValues<'_>, nbytes: usize) -> String {
 
 fn v2_ok(h: &v2::Header<'_>) -> String {
     let o = h.to_owned();
+    let c = h.clone();
     let owned = o == *h
+        && *h == o
+        && c == *h
+        && !(o != *h)
+        && o.header == h.header
+        && o.version == h.version
+        && o.command == h.command
+        && o.protocol == h.protocol
+        && o.addresses == h.addresses
+        && c.tlv_bytes() == h.tlv_bytes()
+        && c.address_bytes() == h.address_bytes()
+        && o.to_owned() == o
         && o.len() == h.len()
         && o.length() == h.length()
         && o.address_bytes() == h.address_bytes()
@@ -528,6 +553,15 @@ fn op_v2(input: &[u8]) -> String {
 fn op_auto(input: &[u8]) -> String {
     let r = HeaderResult::parse(input);
     touch(&r);
+    // the `From<Result<..>>` impls tag a dedicated parser's result with its own version
+    let from_ok = matches!(HeaderResult::from(v2::Header::try_from(input)), HeaderResult::V2(_))
+        && matches!(HeaderResult::from(v1::Header::try_from(input)), HeaderResult::V1(_))
+        && HeaderResult::from(v2::Header::try_from(input)) == HeaderResult::V2(v2::Header::try_from(input))
+        && HeaderResult::from(v1::Header::try_from(input)) == HeaderResult::V1(v1::Header::try_from(input))
+        && r == HeaderResult::parse(input);
+    if !from_ok {
+        return "from-impls-disagree".to_string();
+    }
     match &r {
         HeaderResult::V1(Err(e)) => touch_err(e),
         HeaderResult::V2(Err(e)) => touch_err(e),
